@@ -113,5 +113,28 @@ func runC13(c *rt.Ctx) {
 			}
 		}
 	}
+	// goroutine-level interleavings around one cut: the batcher is parked at the yield points the
+	// overlay injects before its uses of the pooled connection (between handing a batch to the
+	// reader and writing it), and resuming it is an event; a cut plus one delayed resume lets the
+	// reader's recovery replace the connection underneath a batch that is still being written
+	for _, refusals := range []int{0} {
+		for _, bs := range []int{1, 2} {
+			for i, a := range c0 {
+				if i%3 != 0 && !c.Thorough() {
+					continue
+				}
+				item++
+				if c.Mine(item) && !c.Expired() {
+					callers := []wire.Op{a}
+					prep := p0
+					if bs == 2 {
+						callers = append(callers, c1[(i*7+3)%len(c1)])
+						prep = prep01
+					}
+					run(PoolScenario{Harness: "C13", BatchSize: bs, PoolSize: 1, Prep: prep, Callers: callers, MaxCuts: 1, Refusals: refusals, Late: true, Yields: []string{"batcher"}})
+				}
+			}
+		}
+	}
 	c.Set("deviation_bound", bound)
 }
